@@ -371,14 +371,14 @@ impl Sim {
         out
     }
 
-    pub async fn ack(&self, client: u32, sub: &str, ack_ids: Vec<String>, abandon_at: u32) -> Outcome {
+    pub async fn ack(&self, client: u32, sub: &str, ack_ids: Vec<String>, abandon_at: u32, cancel: Option<CancelHandle>) -> Outcome {
         let mut c = self.subscriber();
         let request = pb::AcknowledgeRequest { subscription: sub.to_string(), ack_ids: ack_ids.clone() };
         self.unary(
             client,
             Req::Ack { sub: sub.to_string(), ack_ids },
             abandon_at,
-            None,
+            cancel,
             HANG_LIMIT,
             async move { c.acknowledge(request).await },
             |_: ()| Resp::Empty,
@@ -386,7 +386,7 @@ impl Sim {
         .await
     }
 
-    pub async fn modack(&self, client: u32, sub: &str, ack_ids: Vec<String>, secs: i32, abandon_at: u32) -> Outcome {
+    pub async fn modack(&self, client: u32, sub: &str, ack_ids: Vec<String>, secs: i32, abandon_at: u32, cancel: Option<CancelHandle>) -> Outcome {
         let mut c = self.subscriber();
         let request = pb::ModifyAckDeadlineRequest {
             subscription: sub.to_string(),
@@ -397,7 +397,7 @@ impl Sim {
             client,
             Req::ModAck { sub: sub.to_string(), ack_ids, secs },
             abandon_at,
-            None,
+            cancel,
             HANG_LIMIT,
             async move { c.modify_ack_deadline(request).await },
             |_: ()| Resp::Empty,
@@ -405,7 +405,7 @@ impl Sim {
         .await
     }
 
-    pub async fn publish(&self, client: u32, topic: &str, msgs: &[MsgSpec], abandon_at: u32) -> Outcome {
+    pub async fn publish(&self, client: u32, topic: &str, msgs: &[MsgSpec], abandon_at: u32, cancel: Option<CancelHandle>) -> Outcome {
         let mut c = self.publisher();
         // The token names the publish call that is about to be made.
         let call = self.next_call.get();
@@ -428,7 +428,7 @@ impl Sim {
             client,
             Req::Publish { topic: topic.to_string(), tokens, data_hash: dh, data_len: dl, attrs_hash: ah, attrs_len: al },
             abandon_at,
-            None,
+            cancel,
             HANG_LIMIT,
             async move { c.publish(request).await },
             |r: pb::PublishResponse| Resp::Published(r.message_ids),
@@ -689,23 +689,36 @@ impl Sim {
             tokio::time::sleep(Duration::from_micros(step.delay_us)).await;
         }
         let ab = step.abandon_at;
+        // time-based abandonment: a timer cancels the call; the guard drops it at a real suspension
+        let timed: Option<CancelHandle> = if step.abandon_after_us > 0 {
+            let h = CancelHandle::new();
+            let h2 = h.clone();
+            let after = step.abandon_after_us;
+            tokio::task::spawn_local(async move {
+                tokio::time::sleep(Duration::from_micros(after)).await;
+                h2.cancel();
+            });
+            Some(h)
+        } else {
+            None
+        };
         match &step.op {
             Op::Nop => {}
             Op::CreateTopic { topic } => {
                 let mut c = self.publisher();
                 let request = pb::Topic { name: topic.clone(), ..Default::default() };
                 self.known_topics.borrow_mut().insert(topic.clone());
-                self.unary(client, Req::CreateTopic { topic: topic.clone() }, ab, None, HANG_LIMIT, async move { c.create_topic(request).await }, |t: pb::Topic| Resp::Topic(t.name)).await;
+                self.unary(client, Req::CreateTopic { topic: topic.clone() }, ab, timed.clone(), HANG_LIMIT, async move { c.create_topic(request).await }, |t: pb::Topic| Resp::Topic(t.name)).await;
             }
             Op::DeleteTopic { topic } => {
                 let mut c = self.publisher();
                 let request = pb::DeleteTopicRequest { topic: topic.clone() };
-                self.unary(client, Req::DeleteTopic { topic: topic.clone() }, ab, None, HANG_LIMIT, async move { c.delete_topic(request).await }, |_: ()| Resp::Empty).await;
+                self.unary(client, Req::DeleteTopic { topic: topic.clone() }, ab, timed.clone(), HANG_LIMIT, async move { c.delete_topic(request).await }, |_: ()| Resp::Empty).await;
             }
             Op::GetTopic { topic } => {
                 let mut c = self.publisher();
                 let request = pb::GetTopicRequest { topic: topic.clone() };
-                self.unary(client, Req::GetTopic { topic: topic.clone() }, ab, None, HANG_LIMIT, async move { c.get_topic(request).await }, |t: pb::Topic| Resp::Topic(t.name)).await;
+                self.unary(client, Req::GetTopic { topic: topic.clone() }, ab, timed.clone(), HANG_LIMIT, async move { c.get_topic(request).await }, |t: pb::Topic| Resp::Topic(t.name)).await;
             }
             Op::CreateSub { sub, topic, ack_deadline, push } => {
                 let mut c = self.subscriber();
@@ -731,12 +744,12 @@ impl Sim {
             Op::DeleteSub { sub } => {
                 let mut c = self.subscriber();
                 let request = pb::DeleteSubscriptionRequest { subscription: sub.clone() };
-                self.unary(client, Req::DeleteSub { sub: sub.clone() }, ab, None, HANG_LIMIT, async move { c.delete_subscription(request).await }, |_: ()| Resp::Empty).await;
+                self.unary(client, Req::DeleteSub { sub: sub.clone() }, ab, timed.clone(), HANG_LIMIT, async move { c.delete_subscription(request).await }, |_: ()| Resp::Empty).await;
             }
             Op::GetSub { sub } => {
                 let mut c = self.subscriber();
                 let request = pb::GetSubscriptionRequest { subscription: sub.clone() };
-                self.unary(client, Req::GetSub { sub: sub.clone() }, ab, None, HANG_LIMIT, async move { c.get_subscription(request).await }, |s: pb::Subscription| Resp::Sub(sub_view(&s))).await;
+                self.unary(client, Req::GetSub { sub: sub.clone() }, ab, timed.clone(), HANG_LIMIT, async move { c.get_subscription(request).await }, |s: pb::Subscription| Resp::Sub(sub_view(&s))).await;
             }
             Op::ListPage { kind, parent, page_size, token } => {
                 self.list_page(client, kind, parent, *page_size, token, true).await;
@@ -745,14 +758,14 @@ impl Sim {
                 self.walk(client, kind, parent, *page_size).await;
             }
             Op::Publish { topic, msgs } => {
-                self.publish(client, topic, msgs, ab).await;
+                self.publish(client, topic, msgs, ab, timed.clone()).await;
             }
             Op::PublishMany { topic, count } => {
                 let msgs = vec![MsgSpec { data: 1, attrs: 0 }; *count as usize];
-                self.publish(client, topic, &msgs, ab).await;
+                self.publish(client, topic, &msgs, ab, timed.clone()).await;
             }
             Op::Pull { sub, max, immediate } => {
-                self.pull(client, sub, *max, *immediate, ab, None, None).await;
+                self.pull(client, sub, *max, *immediate, ab, None, timed.clone()).await;
             }
             Op::DrainPull { sub } => {
                 for _ in 0..200 {
@@ -783,11 +796,11 @@ impl Sim {
             }
             Op::Ack { sub, sel } => {
                 let ids = self.resolve(client, sub, sel);
-                self.ack(client, sub, ids, ab).await;
+                self.ack(client, sub, ids, ab, timed.clone()).await;
             }
             Op::ModAck { sub, sel, secs } => {
                 let ids = self.resolve(client, sub, sel);
-                self.modack(client, sub, ids, *secs, ab).await;
+                self.modack(client, sub, ids, *secs, ab, timed.clone()).await;
             }
             Op::StreamOpen { slot, sub, max_msgs, max_bytes, policy } => {
                 self.stream_open(client, *slot, sub, *max_msgs, *max_bytes, policy.clone());
@@ -1080,7 +1093,7 @@ impl Sim {
                         Outcome::Ok(Resp::Pulled(r)) if !r.is_empty() => {
                             got += r.len();
                             let ids = r.iter().map(|x| x.ack_id.clone()).collect();
-                            self.ack(9000, name, ids, 0).await;
+                            self.ack(9000, name, ids, 0, None).await;
                         }
                         _ => break,
                     }
